@@ -494,6 +494,7 @@ def run(ctx: Ctx) -> Outcome:
     evaluations = nontrivial = 0
     n_dis = 0
     fam: dict = {}
+    unconfirmed: dict = {}
 
     def spec_violations(res, module):
         for inv in res.violated:
@@ -520,15 +521,25 @@ def run(ctx: Ctx) -> Outcome:
                 nontrivial += 1
             if r["err"] or _hook_bad(json.loads(item), r):
                 dis_idx.append(i)
-        # every disagreement is re-observed on a newly loaded schema, so that it can never be an artefact of schema reuse
+        # disagreements are re-observed on a newly loaded schema before they are reported, so that a violation can never be an
+        # artefact of schema reuse; at most 60 per signature are confirmed and reported, the rest is only counted
+        per_sig: dict[str, int] = {}
+        to_confirm: list[int] = []
+        for i in dis_idx:
+            case = json.loads(items[i])
+            sigs = {hook_signature(case["events"], h, d) for h, o, d in hook_disagreements(case["expect"], results[i], case["events"])} or {"data"}
+            if any(per_sig.get(sg, 0) < 60 for sg in sigs):
+                to_confirm.append(i)
+            for sg in sigs:
+                per_sig[sg] = per_sig.get(sg, 0) + 1
         confirmed: list[tuple[dict, dict]] = []
-        fresh_items = [items[i] for i in dis_idx][:8000]
+        fresh_items = [items[i] for i in to_confirm]
         for item, r in zip(fresh_items, common.pmap(_work_hooks_fresh, fresh_items)):
             case = json.loads(item)
             if _hook_bad(case, r):
                 confirmed.append((case, r))
-        for i in dis_idx[len(fresh_items):]:
-            confirmed.append((json.loads(items[i]), results[i]))
+        for sg, n in per_sig.items():
+            unconfirmed[sg] = unconfirmed.get(sg, 0) + n
         # the reuse shortcut itself is validated on a random sample of agreeing histories
         dis_set = set(dis_idx)
         agree_idx = [i for i in range(len(items)) if i not in dis_set]
@@ -548,7 +559,7 @@ def run(ctx: Ctx) -> Outcome:
                 len(tlc_dis ^ py_dis), sorted(tlc_dis ^ py_dis)[:5]))
         judged_total += len(judged)
         timings["judge_s:" + cfg] = round(jres.wall_s, 1)
-        n_dis += len(confirmed)
+        n_dis += len(dis_idx)
         for case, r in confirmed:
             out.violations += _hook_violations(case, r, cat)
         pool = [(json.loads(items[i]), results[i]) for i in common.sample(rng, [j for j in agree_idx if '"C' in items[j]] or agree_idx, 2)]
@@ -569,17 +580,28 @@ def run(ctx: Ctx) -> Outcome:
     fam[auth_cfg] = len(items)
     bad: list[tuple[dict, list[int]]] = []
     agree: list[int] = []
+    cand: list[int] = []
     for i, (item, obs) in enumerate(zip(items, results)):
         case = json.loads(item)
         evaluations += 1
-        if any(e["c"] != "-" for e in case["events"]):
+        if '"C' in item:
             nontrivial += 1
-        if auth_verdicts(case, obs):
-            fresh_obs = observe_auth(concretise(case["events"], cat), cat["ops"], fresh=True)
-            if auth_verdicts(case, fresh_obs):
-                bad.append((case, fresh_obs))
-                continue
-        agree.append(i)
+        (cand if auth_verdicts(case, obs) else agree).append(i)
+    per_sig = {}
+    to_confirm = []
+    for i in cand:
+        case = json.loads(items[i])
+        sigs = {auth_signature(case, o, k, results[i]) for o, k in auth_verdicts(case, results[i])}
+        if any(per_sig.get(sg, 0) < 60 for sg in sigs):
+            to_confirm.append(i)
+        for sg in sigs:
+            per_sig[sg] = per_sig.get(sg, 0) + 1
+    for i, fresh_obs in zip(to_confirm, common.pmap(_work_auth_fresh, [items[i] for i in to_confirm])):
+        case = json.loads(items[i])
+        if auth_verdicts(case, fresh_obs):
+            bad.append((case, fresh_obs))
+    for sg, n in per_sig.items():
+        unconfirmed[sg] = unconfirmed.get(sg, 0) + n
     for i in common.sample(rng, agree, 60 if ctx.quick else 1500):
         if observe_auth(concretise(json.loads(items[i])["events"], cat), cat["ops"], fresh=True) != results[i]:
             raise tlc.TLCFailure("schema reuse changes the auth observation for %s" % items[i])
@@ -593,7 +615,7 @@ def run(ctx: Ctx) -> Outcome:
         raise tlc.TLCFailure("auth judge (TLC) and exporter disagree on %d cells: %s" % (len(tlc_dis ^ py_dis), sorted(tlc_dis ^ py_dis)[:5]))
     judged_total += len(judged_a)
     timings["judge_s:" + auth_cfg] = round(jres.wall_s, 1)
-    n_dis += len(bad)
+    n_dis += len(cand)
     for case, obs in bad:
         seen_sig = set()
         for o, kind in auth_verdicts(case, obs):
@@ -625,6 +647,7 @@ def run(ctx: Ctx) -> Outcome:
         "exhaustive": True,
         "family_sizes": fam,
         "disagreeing_histories": n_dis,
+        "disagreeing_histories_by_signature": unconfirmed,
         "constants": {"hook_cfgs": hook_cfgs, "auth_cfg": auth_cfg},
         "timings": timings,
     }
